@@ -1434,7 +1434,12 @@ class System:
     def getProcessedModule(self, modname: str) -> Optional[_ModuleT]:
         mod = self.allobjects.get(modname)
         if mod is None:
-            return None
+            # The module might have been moved by a re-export: 
+            # an alias is left at its original location.
+            try:
+                mod = self.find_object(modname)
+            except LookupError:
+                return None
         if not isinstance(mod, Module):
             return None
 
